@@ -54,7 +54,7 @@ Print Assumptions C14_repr_eval_roundtrip.
    prefix-free and self-synchronising, so no match starts inside a character, and the reported
    position is a code-point index.  cp_find's `index_from` is the least occurrence in the window. *)
 From Coq Require Import ZArith.
-From GP Require Model.StrSearch Proofs.StrSearch Proofs.StrCount.
+From GP Require Model.StrSearch Proofs.StrSearch Proofs.StrCount Proofs.StrSuffix.
 Theorem C14_find_by_code_points : forall s sub beg end_, Forall scalar s -> Forall scalar sub ->
   Model.StrSearch.find_model (encode s) (encode sub) beg end_ = Model.StrSearch.cp_find s sub beg end_.
 Proof. exact Proofs.StrSearch.find_encode. Qed.
@@ -83,13 +83,19 @@ Theorem C14_count_by_code_points : forall s sub beg end_, Forall scalar s -> For
   Model.StrSearch.count_model (encode s) (encode sub) beg end_ = Model.StrSearch.cp_count s sub beg end_.
 Proof. exact Proofs.StrCount.count_model_encode. Qed.
 
+Theorem C14_endswith_by_code_points : forall s sub beg end_, Forall scalar s -> Forall scalar sub ->
+  Model.StrSearch.endswith_model (encode s) (encode sub) beg end_ = Model.StrSearch.cp_endswith s sub beg end_.
+Proof. exact Proofs.StrSuffix.endswith_encode. Qed.
+
 Example C14_find_nonvacuous :
   let s := [97; 233; 8364; 128512; 233; 98]%N in
   Model.StrSearch.find_model (encode s) (encode [233]%N) 2%Z 100%Z = 4%Z /\
   Model.StrSearch.find_model (encode s) (encode [233]%N) (-5)%Z (-2)%Z = 1%Z /\
   Model.StrSearch.find_model (encode s) (encode [8364; 128512]%N) 0%Z 3%Z = (-1)%Z /\
   Model.StrSearch.count_model (encode s) (encode [233]%N) 0%Z 6%Z = 2%Z /\
-  Model.StrSearch.startswith_model (encode s) (encode [128512; 233]%N) 3%Z (-1)%Z = true.
+  Model.StrSearch.startswith_model (encode s) (encode [128512; 233]%N) 3%Z (-1)%Z = true /\
+  Model.StrSearch.endswith_model (encode s) (encode [8364; 128512]%N) 1%Z (-2)%Z = true /\
+  Model.StrSearch.endswith_model (encode s) (encode [172]%N) 0%Z 3%Z = false.
 Proof. vm_compute. repeat split; reflexivity. Qed.
 
 Print Assumptions C14_find_by_code_points.
@@ -98,3 +104,4 @@ Print Assumptions C14_find_none_means_absent.
 Print Assumptions C14_startswith_by_code_points.
 Print Assumptions C14_contains_by_code_points.
 Print Assumptions C14_count_by_code_points.
+Print Assumptions C14_endswith_by_code_points.
